@@ -472,19 +472,62 @@ func c15Func(c *Ctx, fd *ast.FuncDecl) {
 	r2 := c.Ob("C15.R2", name+"/captures", lit.Pos())
 	old := goVersionLess(c.goVers, 1, 22)
 	badCap := ""
-	ast.Inspect(lit.Body, func(n ast.Node) bool {
-		id, ok := n.(*ast.Ident)
-		if !ok {
-			return true
-		}
-		o := c.Info.Uses[id]
-		for _, lv := range loopVars {
-			if o == lv && old {
-				badCap = "loop variable " + lv.Name() + " is captured by the spawned closure (go.mod go " + c.goVers + " < 1.22: one variable shared by all iterations and written by the parent while goroutines run)"
+	// variables declared outside the loop and assigned inside it are shared by all iterations in every Go version
+	loopWritten := map[types.Object]bool{}
+	ast.Inspect(loop.Node, func(n ast.Node) bool {
+		mark := func(e ast.Expr) {
+			if id, ok := unparen(e).(*ast.Ident); ok {
+				if o := c.Info.Uses[id]; o != nil && (o.Pos() < loop.Node.Pos() || o.Pos() >= loop.Node.End()) {
+					loopWritten[o] = true
+				}
 			}
+		}
+		switch a := n.(type) {
+		case *ast.AssignStmt:
+			for _, l := range a.Lhs {
+				mark(l)
+			}
+		case *ast.IncDecStmt:
+			mark(a.X)
 		}
 		return true
 	})
+	// the spawned literal, and every function literal it reaches through a function-valued parameter or local bound on this path
+	// (`spawn(&wg, func() { … })` with `go func() { task() }()` inside the helper): all of them run in the goroutine
+	seenLit := map[*ast.FuncLit]bool{lit: true}
+	var scanLit func(body ast.Node)
+	scanLit = func(body ast.Node) {
+		ast.Inspect(body, func(n ast.Node) bool {
+			id, ok := n.(*ast.Ident)
+			if !ok {
+				return true
+			}
+			o := c.Info.Uses[id]
+			if o == nil {
+				return true
+			}
+			for _, lv := range loopVars {
+				if o == lv && old {
+					badCap = "loop variable " + lv.Name() + " is captured by the spawned closure (go.mod go " + c.goVers + " < 1.22: one variable shared by all iterations and written by the parent while goroutines run)"
+				}
+			}
+			if loopWritten[o] {
+				if _, isVar := o.(*types.Var); isVar {
+					badCap = "variable " + o.Name() + " is declared outside the spawning loop, assigned inside it and read by the spawned closure: one variable shared by all iterations and written by the parent while goroutines run"
+				}
+			}
+			if t, bound := goStep.Env[o]; bound {
+				if tl, isLit := t.(TLit); isLit {
+					if fl, isFn := tl.Node.(*ast.FuncLit); isFn && !seenLit[fl] {
+						seenLit[fl] = true
+						scanLit(fl.Body)
+					}
+				}
+			}
+			return true
+		})
+	}
+	scanLit(lit.Body)
 	// bind parameters to the go-arguments
 	env := copyEnv(goStep.Env)
 	var ps []types.Object
